@@ -41,6 +41,14 @@ pub fn run(name: &str, a: &Args) -> Option<String> {
             let y = Epoch::from_duration(a.dur(2), t1).to_time_scale(t2);
             format!("{}", match x.duration.cmp(&y.duration) { core::cmp::Ordering::Less => -1, core::cmp::Ordering::Equal => 0, core::cmp::Ordering::Greater => 1 })
         }
+        // Ord on epochs of which at least one is in ET / TDB
+        "ecmpf" => {
+            let (x, y) = (epoch(a, 0), epoch(a, 3));
+            let c = x.cmp(&y);
+            assert!((c == core::cmp::Ordering::Equal) == (x == y));
+            assert!(y.cmp(&x) == c.reverse());
+            format!("{}", match c { core::cmp::Ordering::Less => -1, core::cmp::Ordering::Equal => 0, core::cmp::Ordering::Greater => 1 })
+        }
         _ => return None,
     })
 }
